@@ -942,6 +942,10 @@ class Builder:
                 operands=[cond_operand, condition.value, Label(exit_label)],
             )
             if_start.append(branch)
+
+            # Inactivate the temporary registers
+            for reg in temp_regs_to_remove:
+                self._mem_mgr.remove_active_register(reg)
             commands = if_start
         else:
             assert False, "not supported"
@@ -1047,6 +1051,7 @@ class Builder:
             context=context,
             loop_register=loop_register,
         )
+        self._mem_mgr.remove_active_register(loop_register)
 
     def _build_cmds_breakpoint(
         self, action: BreakpointAction, role: BreakpointRole = BreakpointRole.CREATE
